@@ -1,6 +1,7 @@
 package web
 
 import (
+	"context"
 	"fmt"
 	"io"
 	"log/slog"
@@ -8,6 +9,7 @@ import (
 	"strings"
 	"sync"
 
+	"github.com/junioryono/godi/v4"
 	"github.com/junioryono/godi/v4/verifh/eng"
 )
 
@@ -15,7 +17,7 @@ func init() {
 	eng.Register(&eng.Property{
 		ID: "C16", Level: "exploration", Race: true,
 		Rule: "case = (framework, option set {error handler default/custom[/gin non-aborting], 0-3 middlewares, Handle recovery on/off, Handle handlers default/custom, close-error handler, framework recover on/off}, transport {recorder, real httptest.Server, fiber app.Test}, sequential request sequence or concurrent batch of (route, exit path) plans); " +
-			"fixed list per (tier, seed): every framework x 32 option sets x 11 focus exit paths x k seeded sequences + gin non-aborting scenarios + real-server sequences (incl. client abort) + concurrent batches of 16-64; " +
+			"fixed list per (tier, seed): every framework x 32 option sets x 11 focus exit paths x k seeded sequences + gin non-aborting scenarios + real-server sequences (incl. client abort) + concurrent batches of 16-64 + application-scope workload (incoming request contexts derive from a long-lived scope of the same provider; spy or real provider handed to the middleware) over all frameworks x focus exit paths x transports; " +
 			"non-trivial = at least one request reached the scope middleware (CreateScope observed by the spy); distinct = canonical description of the case",
 		Shards: func(tier string) int {
 			if tier == "thorough" {
@@ -31,6 +33,7 @@ func init() {
 			"'the error handler ran' is counted for custom handlers and inferred from the documented status 500 for default handlers",
 			"the provider is never closed concurrently with requests (that window belongs to C09/C13); 'provider already closed' requests are sent after Close returned",
 			"client-abort path (real server only): bounded waits; their expiry is inconclusive",
+			"application-scope workload: the app scope is created from the real provider outside the spy's accounting; half of these cases hand the real provider to ScopeMiddleware (so scope.Provider()==provider holds) and take the request's scope from what the middlewares/handler saw instead of counting CreateScope; no 'no-scope' Handle route there for the context-based integrations (every incoming context carries a scope); fiber is seeded through UserContext only (a scope put in Locals would be closed by fasthttp itself)",
 		},
 		NeedEvents:    []string{"requests", "scopes_created", "close_events", "handler_invocations", "method_invocations", "concurrent_batches"},
 		ShardTimeoutS: func(tier string) int { return 900 },
@@ -170,6 +173,7 @@ type layout struct {
 	nNonAb   int // gin non-aborting scenarios
 	nServer  int
 	nConc    int
+	nApp     int // application-scope workload (incoming contexts already carry a scope)
 	total    int
 	maxLen   int
 	concReqs [2]int
@@ -181,7 +185,8 @@ func mkLayout(c *eng.Ctx) layout {
 	l.nNonAb = c.Pick(72, 720)
 	l.nServer = c.Pick(240, 3000)
 	l.nConc = c.Pick(40, 200)
-	l.total = l.nSys + l.nNonAb + l.nServer + l.nConc
+	l.nApp = c.Pick(440, 4400)
+	l.total = l.nSys + l.nNonAb + l.nServer + l.nConc + l.nApp
 	l.concReqs = [2]int{16, 64}
 	return l
 }
@@ -263,6 +268,60 @@ func specFor(c *eng.Ctx, l layout, idx int) *CaseSpec {
 		}
 		return &CaseSpec{FW: fw, Opts: o, Transport: TrServer, Seq: normalise(seq), Label: "real-server"}
 
+	case idx >= l.nSys+l.nNonAb+l.nServer+l.nConc:
+		// application-scope workload: every incoming request context derives from the context of
+		// a long-lived scope of the same provider (BaseContext / outer middleware / UserContext)
+		k := idx - l.nSys - l.nNonAb - l.nServer - l.nConc
+		fw := allFW[k%len(allFW)]
+		k /= len(allFW)
+		f := focuses[k%len(focuses)]
+		k /= len(focuses)
+		tr := defaultTransport(fw)
+		if fw != FWFiber && k%2 == 1 {
+			tr = TrServer
+		}
+		direct := (k/2)%2 == 1
+		conc := r.Intn(6) == 0
+		o := optSet(r.Intn(32))
+		o.FwRecover = fw == FWFiber || conc || r.Intn(3) != 0
+		if r.Intn(2) == 0 {
+			o.CloseH = "custom"
+		}
+		n := 3 + r.Intn(l.maxLen-2)
+		if conc {
+			n = 16 + r.Intn(17)
+		}
+		seq := make([]Plan, n)
+		fpos := r.Intn(n)
+		if f.exit == ExitClosed && fpos == 0 {
+			fpos = 1 + r.Intn(n-1)
+		}
+		for i := range seq {
+			if i == fpos || (!conc && i > fpos && r.Intn(4) == 0) {
+				seq[i] = focusPlan(r, f, fw, o)
+			} else {
+				seq[i] = randPlan(r, fw, o, tr)
+			}
+			if fw != FWFiber && seq[i].Route == RouteNoScope {
+				// with a scope in every incoming context there is no "no scope" request for the
+				// context-based Handle wrappers (fiber's looks in Locals, which stay unseeded)
+				seq[i].Route = RouteCtrl
+			}
+			if direct && seq[i].Exit == ExitCreateFail {
+				seq[i].Exit = ExitOK // no spy to fail CreateScope
+			}
+		}
+		if conc {
+			// "closed" requests of a batch are sent after the batch
+			for i := range seq {
+				if seq[i].Exit == ExitClosed {
+					seq[i], seq[n-1] = seq[n-1], seq[i]
+					break
+				}
+			}
+		}
+		return &CaseSpec{FW: fw, Opts: o, Transport: tr, Conc: conc, AppCtx: true, Direct: direct, Seq: normalise(seq), Label: "app-scope-context"}
+
 	default:
 		k := idx - l.nSys - l.nNonAb - l.nServer
 		fw := allFW[k%len(allFW)]
@@ -289,7 +348,7 @@ func specFor(c *eng.Ctx, l layout, idx int) *CaseSpec {
 // canonical renders the case description used for distinctness.
 func (s *CaseSpec) canonical() string {
 	var b strings.Builder
-	fmt.Fprintf(&b, "%s|%s|%v|%+v|", s.FW, s.Transport, s.Conc, s.Opts)
+	fmt.Fprintf(&b, "%s|%s|%v|app=%v|direct=%v|%+v|", s.FW, s.Transport, s.Conc, s.AppCtx, s.Direct, s.Opts)
 	for _, p := range s.Seq {
 		fmt.Fprintf(&b, "%s/%s/%d/%v;", p.Route, p.Exit, p.MWPos, p.CloseErr)
 	}
@@ -319,17 +378,36 @@ func runCase(c *eng.Ctx, idx int, spec *CaseSpec) (nontrivial bool) {
 		c.R.Inconclusive(idx, "godi could not build the harness registrations: "+err.Error())
 		return false
 	}
-	sp := &spy{real: real, cs: cs}
+	var sp godi.Provider = &spy{real: real, cs: cs}
+	if spec.Direct {
+		sp = real
+	}
+	if spec.AppCtx {
+		// created from the REAL provider, outside the spy's per-request accounting
+		as, err := real.CreateScope(context.Background())
+		if err != nil {
+			c.R.Inconclusive(idx, "godi could not create the application scope: "+err.Error())
+			_ = real.Close()
+			return false
+		}
+		cs.appScope = as
+		if svc, err := godi.Resolve[*ReqSvc](as); err == nil && svc != nil && svc.inst != nil {
+			cs.appSvc = svc
+			cs.mu.Lock()
+			cs.instOwner[svc.id] = appOwner
+			cs.mu.Unlock()
+		}
+	}
 	var a app
 	switch spec.FW {
 	case FWHTTP:
-		a = newHTTPApp(buildNetHTTP(cs, sp, false), spec.Transport)
+		a = newHTTPApp(buildNetHTTP(cs, sp, false), spec.Transport, cs.appScope)
 	case FWChi:
-		a = newHTTPApp(buildNetHTTP(cs, sp, true), spec.Transport)
+		a = newHTTPApp(buildNetHTTP(cs, sp, true), spec.Transport, cs.appScope)
 	case FWGin:
-		a = newHTTPApp(buildGin(cs, sp), spec.Transport)
+		a = newHTTPApp(buildGin(cs, sp), spec.Transport, cs.appScope)
 	case FWEcho:
-		a = newHTTPApp(buildEcho(cs, sp), spec.Transport)
+		a = newHTTPApp(buildEcho(cs, sp), spec.Transport, cs.appScope)
 	case FWFiber:
 		a = &fiberApp{app: buildFiber(cs, sp)}
 	}
@@ -360,6 +438,7 @@ func runCase(c *eng.Ctx, idx int, spec *CaseSpec) (nontrivial bool) {
 	closeProvider := func() {
 		if !closed {
 			closed = true
+			cs.providerClosed.Store(true)
 			_ = real.Close()
 		}
 	}
@@ -439,6 +518,25 @@ func runCase(c *eng.Ctx, idx int, spec *CaseSpec) (nontrivial bool) {
 	}
 
 	a.shutdown()
+	if !poisoned && cs.appScope != nil {
+		var fs []finding
+		if !closed {
+			// still open after every request of the case; the harness closes it now
+			if _, err := cs.appScope.Get(sharedType); err != nil {
+				fs = append(fs, finding{clause: "app-scope-closed", feature: spec.FW + ":end-of-case" + cs.featSuffix(), req: -1,
+					detail: fmt.Sprintf("at the end of the case the application scope no longer resolves: %v", err)})
+			}
+			_ = cs.appScope.Close()
+			c.R.Count("app_scopes_closed_by_harness", 1)
+		}
+		if cs.appSvc != nil {
+			if n := cs.appSvc.closes.Load(); !closed && n != 1 {
+				fs = append(fs, finding{clause: "app-scope-closed", feature: spec.FW + ":end-of-case" + cs.featSuffix(), req: -1,
+					detail: fmt.Sprintf("the application scope's own scoped instance has %d Close events after the harness closed that scope (want 1)", n)})
+			}
+		}
+		report(fs)
+	}
 	if !poisoned {
 		closeProvider()
 		// nothing that was closed with its request may be closed again by the provider
@@ -453,13 +551,13 @@ func runCase(c *eng.Ctx, idx int, spec *CaseSpec) (nontrivial bool) {
 		}
 		for _, i := range all {
 			if n := i.closes.Load(); n > 1 {
-				fs = append(fs, finding{clause: "instance-close-count", feature: spec.FW + ":after-provider-close:closed-twice", req: -1,
+				fs = append(fs, finding{clause: "instance-close-count", feature: spec.FW + ":after-provider-close:closed-twice" + cs.featSuffix(), req: -1,
 					detail: fmt.Sprintf("%s#%d got %d Close events by the time the provider was closed", i.kind, i.id, n)})
 				break
 			}
 		}
 		if len(sharedW) > 0 {
-			fs = append(fs, finding{clause: "instance-shared", feature: spec.FW + ":" + mode, req: -1,
+			fs = append(fs, finding{clause: "instance-shared", feature: spec.FW + ":" + mode + cs.featSuffix(), req: -1,
 				detail: "scoped state shared between requests: " + strings.Join(sharedW, "; ")})
 		}
 		report(fs)
@@ -488,8 +586,14 @@ func runCase(c *eng.Ctx, idx int, spec *CaseSpec) (nontrivial bool) {
 		R.Count("requests_fw_"+spec.FW, 1)
 		R.Count("requests_exit_"+exit, 1)
 		R.Count("requests_via_"+spec.Transport, 1)
-		if ob.createCalls > 0 {
+		if ob.createCalls > 0 || (spec.Direct && (len(ob.mws) > 0 || ob.hScope != nil)) {
 			nontrivial = true
+		}
+		if spec.AppCtx {
+			R.Count("requests_with_app_scope_context", 1)
+			if spec.Direct && (len(ob.mws) > 0 || ob.hScope != nil) {
+				R.Count("scopes_observed_real_provider", 1)
+			}
 		}
 		R.Count("create_scope_calls", int64(ob.createCalls))
 		R.Count("scopes_created", int64(len(ob.scopes)))
